@@ -11,6 +11,7 @@ import (
 	"errors"
 	"net"
 	"sync"
+	"syscall"
 	"time"
 )
 
@@ -19,16 +20,22 @@ func init() {
 }
 
 type vpListener struct {
-	mu    sync.Mutex
-	addr  string
-	conns []*vpConn
-	next  int
-	done  chan struct{}
-	shut  bool
+	mu       sync.Mutex
+	addr     string
+	conns    []*vpConn
+	next     int
+	done     chan struct{}
+	shut     bool
+	failNext int // this many Accept calls fail with a transient error first (EMFILE: out of descriptors)
 }
 
 func (l *vpListener) Accept() (net.Conn, error) {
 	l.mu.Lock()
+	if l.failNext > 0 && !l.shut {
+		l.failNext--
+		l.mu.Unlock()
+		return nil, &net.OpError{Op: "accept", Net: "tcp", Err: syscall.EMFILE}
+	}
 	if l.next < len(l.conns) && !l.shut {
 		c := l.conns[l.next]
 		l.next++
@@ -71,10 +78,23 @@ func vpNetListen(network, addr string) (net.Listener, error) {
 // vpClientCall: the bytes a conformant ONC RPC client puts on a TCP connection for one call:
 // a single last-fragment record holding the call header (AUTH_NONE) and the arguments.
 func vpClientCall(xid, prog, vers, proc uint32, args []byte) []byte {
+	return vpFrame(vpClientCallBytes(xid, prog, vers, proc, args))
+}
+
+func vpClientCallBytes(xid, prog, vers, proc uint32, args []byte) []byte {
 	var b vpBuf
 	b.u32(xid).u32(RPC_CALL).u32(2).u32(prog).u32(vers).u32(proc)
 	b.u32(AUTH_NONE).u32(0).u32(AUTH_NONE).u32(0).raw(args)
-	return vpFrame(b.Bytes())
+	return b.Bytes()
+}
+
+// vpFrameSplit sends one record as two fragments cut at byte n (a client may fragment a record
+// wherever it likes; only the last fragment carries the flag).
+func vpFrameSplit(payload []byte, n int) []byte {
+	var b vpBuf
+	b.u32(uint32(n)).raw(payload[:n])
+	b.u32(uint32(len(payload)-n) | LastFragmentFlag).raw(payload[n:])
+	return b.Bytes()
 }
 
 // VPH_C28_start: a server started through AbsfsNFS.Export, through Server.Listen with record marking,
@@ -91,10 +111,26 @@ func VPH_C28_start() {
 	m.str("/")
 	var in []byte
 	in = append(in, vpClientCall(x1, NFS_PROGRAM, NFS_V3, NFSPROC3_NULL, nil)...)
-	in = append(in, vpClientCall(x2, MOUNT_PROGRAM, 3, 1, m.Bytes())...)
+	// the MNT call possibly in two fragments (header | arguments, or cut inside the header)
+	mnt := vpClientCallBytes(x2, MOUNT_PROGRAM, 3, 1, m.Bytes())
+	switch vpChoose("mnt-fragmentation", 0, 3) {
+	case 0:
+		in = append(in, vpFrame(mnt)...)
+	case 1:
+		vpReach("fragmented-call")
+		in = append(in, vpFrameSplit(mnt, 40)...)
+	case 2:
+		in = append(in, vpFrameSplit(mnt, 6)...)
+	case 3:
+		in = append(in, vpFrameSplit(mnt, len(mnt))...) // everything in a non-last fragment, then an empty last one
+	}
 	in = append(in, vpClientCall(x3, NFS_PROGRAM, NFS_V3, NFSPROC3_GETATTR, g.Bytes())...)
 	conn := &vpConn{in: in, remote: "127.0.0.1:800"}
 	l := &vpListener{addr: "127.0.0.1:2049", conns: []*vpConn{conn}, done: make(chan struct{})}
+	if vpBool("transient-accept-failure") {
+		vpReach("transient-accept-failure")
+		l.failNext = 2 // the descriptor table was full for a moment while the client connected
+	}
 	pml := &vpListener{addr: ":111", done: make(chan struct{})}
 	vpListeners = map[string]*vpListener{"": l, ":111": pml}
 	defer func() { vpListeners = nil }()
